@@ -45,7 +45,12 @@ class PyTarget:
         self.cls = {}
         for t in self.ts.all:
             m = importlib.import_module("%s.%s_1_0" % (self.ts.ns, t["name"]))
-            self.cls[t["name"]] = getattr(m, "%s_1_0" % t["name"])
+            c = getattr(m, "%s_1_0" % t["name"])
+            if t.get("svc") == "Request":
+                self.cls[t["name"] + "Request"] = c.Request
+                self.cls[t["name"] + "Response"] = c.Response
+            else:
+                self.cls[t["name"]] = c
 
     # -- value conversion
     def normalize(self, t, v, in_array=False):
@@ -75,7 +80,7 @@ class PyTarget:
             return float(v)
         if k in ("farr", "varr"):
             return [self.build(t["e"], x) for x in v]
-        cls = self.cls[t["name"]]
+        cls = self.cls[t["name"] + (t.get("svc") or "")]
         if k == "struct":
             return cls(**{"f%d" % i: self.build(f, x) for i, (f, x) in enumerate(zip(t["fields"], v)) if f["k"] != "void"})
         tag, x = v
@@ -120,7 +125,7 @@ class PyTarget:
     def des(self, t, data):
         rec = {"L": "py", "kinds": False, "consumed": -1, "bytes": list(data), "val": []}
         try:
-            o = self.support.deserialize(self.cls[t["name"]], [memoryview(bytearray(data))])
+            o = self.support.deserialize(self.cls[t["name"] + (t.get("svc") or "")], [memoryview(bytearray(data))])
             if o is None:
                 rec["err"] = "format"
             else:
@@ -132,7 +137,7 @@ class PyTarget:
         return rec
 
     def extent(self, t):
-        return int(self.cls[t["name"]]._EXTENT_BYTES_)
+        return int(self.cls[t["name"] + (t.get("svc") or "")]._EXTENT_BYTES_)
 
 
 def encode_py_in(t, v, in_array=False):
